@@ -257,7 +257,12 @@ def c182(ctx):
             ctx.check(R, f, "wait-in-loop", P.reach(f, P.after(f, pt), [pt]) is not None, "the wait for a free slot is inside a loop that re-checks head + len <= tail",
                       "link waits for a slot without re-checking the condition", pt=pt)
         tw = P.field_writes(f, r"WaitListState$", "tail")
-        ini = ctx.calls(R, f, WL + r"Waiter::initialize$")
+        # the new position is published by `linked.store(true)`: through Waiter::initialize, or written out in link itself
+        ini = P.call_points(f, WL + r"Waiter::initialize$")
+        if ini:
+            ctx.ok(R, f, "link publishes the slot through Waiter::initialize", ini)
+        else:
+            ini = ctx.calls(R, f, r"atomic::Atomic(Bool)?(::<bool>)?::store$", arg_pred=K.recv_is_field("linked"), what="linked.store(true)")
         ctx.order_chain(R, f, [("tail += 1", tw), ("waiter.initialize", ini)])
         held_at(ctx, R, f, ini, "initialize of the new position", lock="WaitList.state")
         for pt in tw:
